@@ -18,19 +18,103 @@ const PIPE_STUB: &[&str] = &[
     "file being read: SimRead (Read+Seek+Reopen with F3/F4)",
     "data source in a share of the runs: SimSource (own BBIDataSource, 1-5 chromosomes in flight)",
 ];
+const READ_REAL: &[&str] = &[
+    "bigtools readers (bbiread.rs incl. CachedBBIFileRead, bigwigread.rs, bigbedread.rs, reopen.rs), libdeflater inflate",
+    "for files written by bigtools: the real write pipeline (calm schedule)",
+];
+const READ_STUB: &[&str] = &[
+    "file being read: SimRead (Read+Seek+Reopen over shared bytes, seeded short reads and EINTR)",
+    "C10 only: files come from the independent encoder (sim/src/encode.rs), not from bigtools",
+];
+const COMMON_ASSUME: &[&str] = &[
+    "a clean batch is evidence bounded by the generator's sizes, not a proof",
+    "one VERIF_SEED and a run index determine a case completely (determinism self-test: sim determinism <prop>)",
+];
 
 pub fn spec(prop: &str) -> Spec {
     let pipe_rule = "cases drawn by the seeded swarm generator (workload x options x source kind x pass mode x schedule policy x I/O fault rates) from VERIF_SEED and the run index; distinct = distinct hash of the complete case description (workload, options, schedule plan, fault plan); non-trivial = the write produced at least 2 data sections and the property's oracle was actually evaluated (accepted input, verdict pass)";
+    let mut assumptions = COMMON_ASSUME.to_vec();
     match prop {
-        _ => Spec {
-            rule: pipe_rule.to_string(),
+        "C03" | "C04" | "C05" | "C10" => {
+            assumptions.push("the independent decoder/encoder pair implements the published format correctly (they cross-check each other)");
+            Spec {
+                rule: match prop {
+                    "C05" => "stratified seeded search over tree shapes: run index mod 16 selects a target (levels 1-4 x last node full/partial/single, then free sampling of 1-700 blocks, fan-out 2-9, 1-3 chromosomes); every case = one written file + independent tree walk + boundary sweep; distinct = distinct hash of the case; non-trivial = at least 2 blocks. classes_reached lists the (levels, last-node fill per level) classes observed in the decoded trees".to_string(),
+                    "C10" => "seeded encoder specifications (byte order x zlib/raw x version 1-4 x section types 1/2/3 x chromosome-tree fan-out x R-tree fan-out x node placement x zoom levels) with a seeded query history each; distinct = distinct hash of (specification, history, read-fault plan); non-trivial = at least 2 data blocks; classes_reached lists the layout classes".to_string(),
+                    _ => "seeded files (calm bigtools write) with a seeded history of 4-40 operations (interval, partial iteration, move+into, per-base values, zoom, reopen, summary) run through the plain and the caching reader on SimRead; distinct = distinct hash of (file, history, read-fault plan, reader flavour); non-trivial = at least 2 blocks and 2 operations".to_string(),
+                },
+                real: READ_REAL.to_vec(),
+                stub: READ_STUB.to_vec(),
+                assumptions,
+            }
+        }
+        "C12" => Spec {
+            rule: "39 of 40 cases: one seeded producer program (0-8 writes of boundary-biased sizes, optional flushes, drop) interleaved call by call with one of four legal consumer programs by a seeded chooser, in-memory or temp-file staging, destination with short writes/EINTR; 1 of 40 cases: a batch of 3 000 (quick) / 20 000 (thorough) shuttle schedules (random or PCT, seeded) of a producer thread and a consumer thread over the same source compiled against shuttle's Mutex/Condvar. distinct = distinct case hash; non-trivial = at least one write (interleaving cases) / every shuttle batch; classes_reached = where the redirect landed relative to the byte stream; probes = which staging state each hand-over found".to_string(),
+            real: vec![
+                "bigtools/src/utils/file/tempfilebuffer.rs (interleaving simulator: real std Mutex/Condvar and crossbeam AtomicCell; shuttle: the same source file via #[path])",
+                "temp files on the real file system",
+            ],
+            stub: vec![
+                "destination: SimSink / in-memory Dest with bounded write size",
+                "shuttle mode: Mutex, Condvar from shuttle; AtomicCell modelled by a shuttle mutex (linearizable swap with a scheduling point)",
+            ],
+            assumptions,
+        },
+        "C15" | "C16" | "C17" => Spec {
+            rule: "seeded cases; the tools are called in-process through their public entry functions with clap-parsed argument vectors; distinct = distinct hash of the case (inputs, flags, schedule plan); non-trivial = at least 2 input records/regions".to_string(),
+            real: vec![
+                "bigtools::utils::cli::{bedgraphtobigwig, bedtobigbed, bigwigtobedgraph, bigbedtobed, bigwigmerge, bigwigaverageoverbed, bigwigvaluesoverbed} entry functions, compat_args, clap argument structs",
+                "bigtools::utils::{merge, fill, misc}",
+                "the write pipeline and readers underneath, real files in a scratch directory",
+            ],
+            stub: vec![
+                "multi-thread tokio runtimes are replaced by the simulator's current_thread runtime through the cfg-gated override (C16, C11 converters); -t 1 runs natively",
+                "C17 -t N: the tool's own std::thread pool runs for real (uncontrolled, counted separately)",
+                "C17 library mode: SimRead with short reads/EINTR",
+            ],
+            assumptions,
+        },
+        "C18" => Spec {
+            rule: "half of the cases: a FileView over a seeded window of a seeded scratch file driven through a seeded history of 1-14 read/seek operations against a clamped-cursor model; the rest: seeded grouped / non-grouped files (run lengths x line-length patterns incl. 200-3000 byte lines and multi-byte text x final newline) for index_chroms and for split_file_into_chunks_by_size with every chunk count 1..lines+2. distinct = distinct case hash; non-trivial = at least 2 operations / 2 lines. index and chunking are pure functions of the file (no schedule or fault dimension) and are counted separately".to_string(),
+            real: vec!["bigtools::utils::file_view::FileView, bigtools::bed::indexer::index_chroms, bigtools::utils::split_file_into_chunks_by_size on real scratch files"],
+            stub: vec!["none"],
+            assumptions,
+        },
+        "C19" => Spec {
+            rule: "two thirds of the cases: batches of parser inputs (a generated schema with all its token-boundary truncations; 30 single-token mutations; the 41 schemas bed_autosql emits; blocks of 300 strings of the enumeration of all strings up to length 6 over the delimiter alphabet, with schema prefixes) parsed inside a worker process with a 1 GiB address-space cap and a stall watchdog; one third: bedtobigbed in-process with 0-40 extra columns, with or without a generated (1-6 declaration) schema. distinct = distinct case hash; non-trivial = a batch of at least 2 inputs / a conversion".to_string(),
+            real: vec![
+                "bigtools::bed::autosql::{parse::parse_autosql, bed_autosql}",
+                "bigtools::utils::cli::bedtobigbed, BigBedRead::autosql / header.field_count",
+            ],
+            stub: vec!["process resources: RLIMIT_AS cap and stall watchdog of the worker process (F9)"],
+            assumptions,
+        },
+        "C14" => Spec {
+            rule: "outer loop: seeded small workloads (<= 3 chromosomes, <= 40 items each, calm schedule, a third with short writes, a sixth with a refused input); inner loops exhaustive: every crash point k of the recorded sink operation log and every (write|seek|flush, k, one-shot|sticky) failing operation. evaluations = workloads; coverage.counters.sub_evaluations = crash images + failing-sink runs actually executed; distinct = distinct workload hash; non-trivial = at least one data section".to_string(),
             real: PIPE_REAL.to_vec(),
             stub: PIPE_STUB.to_vec(),
-            assumptions: vec![
-                "a clean batch is evidence bounded by the generator's sizes, not a proof",
-                "the tokio current_thread scheduler is deterministic given the yield decisions (checked by the determinism self-test)",
-                "the independent decoder (sim/src/decode.rs) implements the published format correctly",
-            ],
+            assumptions,
         },
+        "C11" => Spec {
+            rule: "4 of 5 cases: one workload + format options written once as reference (serial source, in-memory, calm) and 3-7 variants (source kind, channel size, buffering, schedule policy+seed, sink short writes/EINTR, 1 in 12 on a real multi-thread runtime), all images compared byte for byte; 1 of 5 cases: a written file converted by write_bg/write_bed on the simulator's runtime (-t 2..16) under a seeded schedule and compared with the single-threaded text. distinct = distinct case hash; non-trivial = at least 2 chromosomes and 2 sections".to_string(),
+            real: PIPE_REAL.to_vec(),
+            stub: PIPE_STUB.to_vec(),
+            assumptions,
+        },
+        "C13" => Spec {
+            rule: "7 of 10 cases: a valid multi-chromosome workload with one bad record (out of order, overlap, start>end, beyond chromosome, unknown chromosome, chromosome order, malformed line, empty input, source error item, read error mid-text) planted at a first/middle/last position; 2 of 10: only zero-length items; 1 of 10 plain valid. distinct = distinct case hash; non-trivial = a planted bad record in an input of at least 2 records".to_string(),
+            real: PIPE_REAL.to_vec(),
+            stub: PIPE_STUB.to_vec(),
+            assumptions,
+        },
+        _ => {
+            assumptions.push("the independent decoder (sim/src/decode.rs) implements the published format correctly");
+            Spec {
+                rule: pipe_rule.to_string(),
+                real: PIPE_REAL.to_vec(),
+                stub: PIPE_STUB.to_vec(),
+                assumptions,
+            }
+        }
     }
 }
